@@ -50,6 +50,7 @@ type Ctx struct {
 	knownSeen   map[string]int
 	replayPaths []string
 	noEvidence  bool   // replay runs do not rewrite the evidence file
+	scratchRepo bool   // VERIF_REPO names another checkout: everything as usual, but the evidence file is left alone
 	wantWhy     string // replay: the violation class to look for
 	sawWantWhy  bool
 	quiet       bool
@@ -59,7 +60,7 @@ func NewCtx(prop, tier string, seed int) (*Ctx, error) {
 	c := &Ctx{Prop: prop, Tier: tier, Seed: seed, Start: time.Now(), knownSeen: map[string]int{}}
 	c.Work = filepath.Join(Root, "work", fmt.Sprintf("%s-%s-%d", prop, tier, os.Getpid()))
 	if r := os.Getenv("VERIF_REPO"); r != "" && r != "/repo" {
-		c.noEvidence = true // a run against a scratch checkout (seeded change) says nothing about /repo
+		c.scratchRepo = true // a run against a scratch checkout (seeded change) says nothing about /repo: no evidence file
 	}
 	if err := os.MkdirAll(c.Work, 0o755); err != nil {
 		return nil, err
@@ -183,7 +184,12 @@ func (c *Ctx) Finish(level string, cov Coverage, assumptions []string) int {
 		return 0
 	}
 	_ = os.MkdirAll(filepath.Join(Root, "evidence"), 0o755)
-	if err := os.WriteFile(filepath.Join(Root, "evidence", c.Prop+".json"), b, 0o644); err != nil {
+	if c.scratchRepo {
+		b = nil
+	}
+	if b == nil {
+		// nothing to write
+	} else if err := os.WriteFile(filepath.Join(Root, "evidence", c.Prop+".json"), b, 0o644); err != nil {
 		fmt.Fprintln(os.Stderr, "cannot write evidence:", err)
 		return 2
 	}
